@@ -376,3 +376,67 @@ V("C15", "C15.R5", "c15-wrapc-entry-guard-removed", "shroud/wrapc.py",
 
         if cls:
             cls_function = "method"''', "fire", "Wrapc.wrap_function")
+
+# ---------------------------------------------------------------------------
+# C16
+# ---------------------------------------------------------------------------
+V("C16", "C16.R1", "c16-debug-noncomment-line", "shroud/wrapc.py",
+  '''            if options.debug:
+                if options.debug_index:
+                    impl.append("// function_index=%d" % node._function_index)''',
+  '''            if options.debug:
+                impl.append("static int SH_debug_%d;" % node._function_index)
+                if options.debug_index:
+                    impl.append("// function_index=%d" % node._function_index)''', "fire", "wrap_function")
+V("C16", "C16.R1", "c16-debug-need-wrapper", "shroud/wrapf.py",
+  '''        if options.debug:
+            stmts_comments.append(
+                "! ----------------------------------------")
+            f_decl = ast.gen_decl(params=None)''',
+  '''        if options.debug:
+            need_wrapper = True
+            stmts_comments.append(
+                "! ----------------------------------------")
+            f_decl = ast.gen_decl(params=None)''', "fire", "wrap_function_impl")
+V("C16", "C16.R1", "c16-silent-more-comments", "shroud/wrapc.py",
+  '''            if options.debug:
+                if options.debug_index:
+                    impl.append("// function_index=%d" % node._function_index)''',
+  '''            if options.debug:
+                impl.append("// generated from " + node.declgen)
+                if options.debug_index:
+                    impl.append("// function_index=%d" % node._function_index)''', "silent")
+V("C16", "C16.R1", "c16-doxygen-else-branch", "shroud/wrapl.py",
+  '''        if node.options.doxygen:''',
+  '''        if not node.options.doxygen:
+            body.append("static int SH_nodoc;")
+        if node.options.doxygen:''', "fire", "")
+V("C16", "C16.R1", "c16-literalinclude-in-code", "shroud/wrapc.py",
+  '''            if options.literalinclude:
+                append_format(impl, "// start {C_name}", fmt_func)''',
+  '''            if options.literalinclude:
+                append_format(impl, "#pragma region {C_name}", fmt_func)''', "fire", "")
+V("C16", "C16.R1", "c16-splicer-marker-not-comment", "shroud/util.py",
+  '''                "%s splicer begin %s%s"
+                % (self.comment, self.splicer_path, name)''',
+  '''                "%s splicer begin %s%s"
+                % (self.splicer_path, self.comment, name)''', "fire", "_create_splicer")
+V("C16", "C16.R1", "c16-option-as-value", "shroud/wrapf.py",
+  '''        self.linelen = newlibrary.options.F_line_length''',
+  '''        self.linelen = newlibrary.options.F_line_length - int(newlibrary.options.debug)''', "fire", "read")
+V("C16", "C16.R2", "c16-helper-under-debug", "shroud/wrapc.py",
+  '''        if options.debug:
+            stmts_comments.append(
+                "// ----------------------------------------")
+            c_decl = ast.gen_decl(params=None)''',
+  '''        if options.debug:
+            self.add_c_helper("ShroudTypeDefines", fmt_result)
+            stmts_comments.append(
+                "// ----------------------------------------")
+            c_decl = ast.gen_decl(params=None)''', "fire", "add_c_helper")
+V("C16", "C16.R3", "c16-version-in-code", "shroud/util.py",
+  '''        self.write_copyright(fp)
+        self.indent = 0''',
+  '''        self.write_copyright(fp)
+        fp.write("static const char *shroud_version = \\"%s\\";\\n" % self.config.write_version)
+        self.indent = 0''', "fire", "write_output_file")
